@@ -20,14 +20,16 @@ theorem CEq.refl (c : Content) : CEq c c := fun _ => rfl
 theorem CEq.symm {a b : Content} (h : CEq a b) : CEq b a := fun k => (h k).symm
 theorem CEq.trans {a b c : Content} (h₁ : CEq a b) (h₂ : CEq b c) : CEq a c := fun k => (h₁ k).trans (h₂ k)
 
+/-- write `f k` at `k` when it is defined -/
+def putOpt (f : Bytes → Option Bytes) (c : Content) (k : Bytes) : Content := (f k).elim c (fun v => cput c k v)
+
 /-- a fold of writes whose value is a function of the key: the result at `k'` does not depend on the order -/
 theorem cget_foldl_put (f : Bytes → Option Bytes) (l : List Bytes) (c : Content) (k' : Bytes) :
-    cget (l.foldl (fun c k => match f k with | some v => cput c k v | none => c) c) k'
-      = if k' ∈ l then (match f k' with | some v => v | none => cget c k') else cget c k' := by
+    cget (l.foldl (putOpt f) c) k' = if k' ∈ l then (f k').getD (cget c k') else cget c k' := by
   induction l generalizing c with
   | nil => simp
   | cons a t ih =>
-    simp only [List.foldl_cons, ih, List.mem_cons]
+    simp only [List.foldl_cons, ih, List.mem_cons, putOpt]
     by_cases hk : k' = a
     · subst hk
       cases hf : f k' with
@@ -37,7 +39,6 @@ theorem cget_foldl_put (f : Bytes → Option Bytes) (l : List Bytes) (c : Conten
       cases hf : f a with
       | none => simp [hk]
       | some v => by_cases hm : k' ∈ t <;> simp [hm, hk, hk', cget_cput]
-
 
 /-! ## the key order -/
 
@@ -328,6 +329,249 @@ theorem sorted_ext : ∀ (a b : Content), SortedC a → SortedC b → NoEmpty a 
 theorem norm_ext {a b : Content} (h : CEq a b) : norm a = norm b :=
   sorted_ext _ _ (norm_sorted a) (norm_sorted b) (norm_noEmpty a) (norm_noEmpty b)
     (fun k => by rw [norm_get, norm_get, h k])
+
+
+
+
+/-! ## what a flush of the validators leaves untouched -/
+
+theorem flushVal_frame (del : Bool) (s : St) (a : Bytes) :
+    (flushVal del s a).t.acct = s.t.acct ∧ (flushVal del s a).t.stk = s.t.stk ∧ (flushVal del s a).accts = s.accts
+    ∧ (flushVal del s a).recs = s.recs ∧ (flushVal del s a).recD = s.recD := by
+  unfold flushVal
+  cases aget s.vals a with
+  | none => simp
+  | some v => by_cases h : (v.deleted || (del && v.isInvalid)) = true <;> simp [h]
+
+theorem foldl_flushVal_frame (del : Bool) (l : List Bytes) (s : St) :
+    (l.foldl (flushVal del) s).t.acct = s.t.acct ∧ (l.foldl (flushVal del) s).t.stk = s.t.stk ∧ (l.foldl (flushVal del) s).accts = s.accts
+    ∧ (l.foldl (flushVal del) s).recs = s.recs ∧ (l.foldl (flushVal del) s).recD = s.recD := by
+  induction l generalizing s with
+  | nil => simp
+  | cons a t ih =>
+    simp only [List.foldl_cons]
+    obtain ⟨a1, a2, a3, a4, a5⟩ := flushVal_frame del s a
+    obtain ⟨b1, b2, b3, b4, b5⟩ := ih (flushVal del s a)
+    exact ⟨b1.trans a1, b2.trans a2, b3.trans a3, b4.trans a4, b5.trans a5⟩
+
+theorem flushRelats_frame (s : St) : (flushRelats s).t.acct = s.t.acct ∧ (flushRelats s).t.stk.recs = s.t.stk.recs
+    ∧ (flushRelats s).t.val = s.t.val := by
+  unfold flushRelats; split <;> simp
+
+/-- the account trie after IntermediateRoot: the pending set of the finalised state folded into the old trie -/
+theorem iroot_acct (P : Prim) (del : Bool) (s : St) :
+    (iroot P del s).t.acct = (finalise del s).acctP.foldl (flushAcct P (finalise del s).accts) s.t.acct := by
+  unfold iroot
+  rw [(flushRelats_frame _).1]
+  simp only [flushRecs, saveSingles, flushVals]
+  rw [(foldl_flushVal_frame del _ _).1]
+  simp [flushAccts, finalise]
+
+theorem iroot_recs (P : Prim) (del : Bool) (s : St) :
+    (iroot P del s).t.stk.recs = s.recD.foldl (flushRec s.recs) s.t.stk.recs := by
+  unfold iroot
+  rw [(flushRelats_frame _).2.1]
+  simp only [flushRecs, saveSingles, flushVals]
+  obtain ⟨_, b2, _, b4, b5⟩ := foldl_flushVal_frame del (flushAccts P (finalise del s)).valD (flushAccts P (finalise del s))
+  rw [b2, b4, b5]
+  simp [flushAccts, finalise]
+
+/-! ## Finalise as a function of the key -/
+
+def finFlag (del : Bool) (o : Acct) : Acct := if o.suicided || (del && o.empty) then { o with deleted := true } else o
+
+theorem finFlag_idem (del : Bool) (o : Acct) : finFlag del (finFlag del o) = finFlag del o := by
+  unfold finFlag
+  by_cases h : (o.suicided || (del && o.empty)) = true
+  · have h2 : (({ o with deleted := true } : Acct).suicided || (del && ({ o with deleted := true } : Acct).empty)) = true := by
+      simpa [Acct.empty] using h
+    rw [if_pos h, if_pos h2]
+  · rw [if_neg h, if_neg h]
+
+theorem finaliseAcct_get (del : Bool) (accts : List (Bytes × Acct)) (a a' : Bytes) :
+    aget (finaliseAcct del accts a) a' = if a = a' then (aget accts a').map (finFlag del) else aget accts a' := by
+  unfold finaliseAcct
+  by_cases ha : a = a'
+  · subst ha
+    cases h : aget accts a with
+    | none => simp [h]
+    | some o =>
+      by_cases hc : (o.suicided || (del && o.empty)) = true
+      · simp [hc, aget_aput, finFlag]
+      · simp [hc, h, finFlag]
+  · cases h : aget accts a with
+    | none => simp [ha]
+    | some o =>
+      by_cases hc : (o.suicided || (del && o.empty)) = true
+      · simp [hc, aget_aput, ha]
+      · simp [hc, ha]
+
+/-- Finalise looks at each journal-dirty object once, whatever the order of the dirty set -/
+theorem finalise_accts_get (del : Bool) (l : List Bytes) (accts : List (Bytes × Acct)) (a' : Bytes) :
+    aget (l.foldl (finaliseAcct del) accts) a' = if a' ∈ l then (aget accts a').map (finFlag del) else aget accts a' := by
+  induction l generalizing accts with
+  | nil => simp
+  | cons a t ih =>
+    simp only [List.foldl_cons, ih, finaliseAcct_get, List.mem_cons]
+    by_cases ha : a = a'
+    · subst ha
+      by_cases hm : a ∈ t
+      · cases h : aget accts a <;> simp [hm, finFlag_idem]
+      · simp [hm]
+    · have ha' : ¬ a' = a := fun h => ha h.symm
+      simp [ha, ha']
+
+theorem mem_addIfNew (k x : Bytes) (l : List Bytes) : x ∈ addIfNew k l ↔ x = k ∨ x ∈ l := by
+  unfold addIfNew
+  by_cases h : l.contains k = true
+  · simp only [h, if_true]
+    constructor
+    · exact Or.inr
+    · rintro (h' | h')
+      · rw [h']; simpa using h
+      · exact h'
+  · simp only [h]
+    simp [or_comm]
+
+theorem mem_foldl_addIfNew (l acc : List Bytes) (x : Bytes) :
+    x ∈ l.foldl (fun l a => addIfNew a l) acc ↔ x ∈ l ∨ x ∈ acc := by
+  induction l generalizing acc with
+  | nil => simp
+  | cons a t ih =>
+    simp only [List.foldl_cons, ih, mem_addIfNew, List.mem_cons]
+    constructor
+    · rintro (h | h | h)
+      · exact Or.inl (Or.inr h)
+      · exact Or.inl (Or.inl h)
+      · exact Or.inr h
+    · rintro ((h | h) | h)
+      · exact Or.inr (Or.inl h)
+      · exact Or.inl h
+      · exact Or.inr (Or.inr h)
+
+/-- value IntermediateRoot writes for a pending key -/
+def acctLeaf (P : Prim) (o : Acct) : Bytes := if o.deleted then [] else encAcct P o
+
+theorem flushAcct_eq (P : Prim) (accts : List (Bytes × Acct)) :
+    flushAcct P accts = putOpt (fun a => (aget accts a).map (acctLeaf P)) := by
+  funext c a
+  unfold flushAcct acctLeaf putOpt
+  cases hg : aget accts a with
+  | none => simp [hg]
+  | some o => by_cases h : o.deleted = true <;> simp [h, hg]
+
+/-- **the account trie after a flush, key by key** -/
+theorem iroot_acct_get (P : Prim) (del : Bool) (s : St) (a : Bytes) :
+    cget (iroot P del s).t.acct a =
+      if a ∈ s.acctJ ∨ a ∈ s.acctP then ((aget (finalise del s).accts a).map (acctLeaf P)).getD (cget s.t.acct a)
+      else cget s.t.acct a := by
+  rw [iroot_acct, flushAcct_eq, cget_foldl_put]
+  have hm : a ∈ (finalise del s).acctP ↔ a ∈ s.acctJ ∨ a ∈ s.acctP := by
+    simp only [finalise]; exact mem_foldl_addIfNew _ _ _
+  by_cases h1 : a ∈ s.acctJ ∨ a ∈ s.acctP
+  · rw [if_pos (hm.mpr h1), if_pos h1]
+  · rw [if_neg (fun h' => h1 (hm.mp h')), if_neg h1]
+
+theorem finalise_get (del : Bool) (s : St) (a : Bytes) :
+    aget (finalise del s).accts a = if a ∈ s.acctJ then (aget s.accts a).map (finFlag del) else aget s.accts a := by
+  simp only [finalise]; exact finalise_accts_get del _ _ _
+
+
+
+
+/-! ## staking records -/
+
+theorem flushRec_eq (recs : List (Bytes × SRec)) :
+    flushRec recs = putOpt (fun k => (aget recs k).map (fun r => enc (srecItem r))) := by
+  funext c k
+  unfold flushRec putOpt
+  cases hg : aget recs k <;> simp [hg]
+
+theorem iroot_recs_get (P : Prim) (del : Bool) (s : St) (k : Bytes) :
+    cget (iroot P del s).t.stk.recs k =
+      if k ∈ s.recD then ((aget s.recs k).map (fun r => enc (srecItem r))).getD (cget s.t.stk.recs k) else cget s.t.stk.recs k := by
+  rw [iroot_recs, flushRec_eq, cget_foldl_put]
+
+/-! ## validators -/
+
+def wd (del : Bool) (v : Val) : Bool := v.deleted || (del && v.isInvalid)
+def markDel (v : Val) : Val := { v with deleted := true }
+def vflag (del : Bool) (v : Val) : Val := if wd del v then markDel v else v
+def valLeaf (del : Bool) (v : Val) : Bytes := if wd del v then [] else enc (valItem v)
+
+theorem wd_markDel (del : Bool) (v : Val) : wd del (markDel v) = true := by simp [wd, markDel]
+
+theorem vflag_pos {del : Bool} {v : Val} (h : wd del v = true) : vflag del v = markDel v := by unfold vflag; rw [if_pos h]
+theorem vflag_neg {del : Bool} {v : Val} (h : ¬ wd del v = true) : vflag del v = v := by unfold vflag; rw [if_neg h]
+
+theorem wd_vflag (del : Bool) (v : Val) : wd del (vflag del v) = wd del v := by
+  by_cases h : wd del v = true
+  · rw [vflag_pos h, wd_markDel, h]
+  · rw [vflag_neg h]
+
+theorem vflag_idem (del : Bool) (v : Val) : vflag del (vflag del v) = vflag del v := by
+  by_cases h : wd del v = true
+  · rw [vflag_pos h, vflag_pos (wd_markDel del v)]; rfl
+  · rw [vflag_neg h, vflag_neg h]
+
+theorem valLeaf_vflag (del : Bool) (v : Val) : valLeaf del (vflag del v) = valLeaf del v := by
+  unfold valLeaf
+  rw [wd_vflag]
+  by_cases h : wd del v = true
+  · simp [h]
+  · rw [vflag_neg h]
+
+theorem flushVal_get (del : Bool) (s : St) (a a' : Bytes) :
+    aget (flushVal del s a).vals a' = (if a = a' then (aget s.vals a').map (vflag del) else aget s.vals a') ∧
+    cget (flushVal del s a).t.val.vals a' =
+      (if a = a' then ((aget s.vals a').map (valLeaf del)).getD (cget s.t.val.vals a') else cget s.t.val.vals a') := by
+  unfold flushVal
+  by_cases ha : a = a'
+  · subst ha
+    cases hg : aget s.vals a with
+    | none => simp [hg]
+    | some v =>
+      by_cases hw : (v.deleted || (del && v.isInvalid)) = true
+      · simp [hw, aget_aput, cget_cput, vflag, valLeaf, wd, markDel]
+      · simp [hw, hg, cget_cput, vflag, valLeaf, wd]
+  · cases hg : aget s.vals a with
+    | none => simp [ha]
+    | some v =>
+      by_cases hw : (v.deleted || (del && v.isInvalid)) = true
+      · simp [hw, aget_aput, cget_cput, ha]
+      · simp [hw, cget_cput, ha]
+
+theorem foldl_flushVal_get (del : Bool) (l : List Bytes) (s : St) (a' : Bytes) :
+    aget (l.foldl (flushVal del) s).vals a' = (if a' ∈ l then (aget s.vals a').map (vflag del) else aget s.vals a') ∧
+    cget (l.foldl (flushVal del) s).t.val.vals a' =
+      (if a' ∈ l then ((aget s.vals a').map (valLeaf del)).getD (cget s.t.val.vals a') else cget s.t.val.vals a') := by
+  induction l generalizing s with
+  | nil => simp
+  | cons a t ih =>
+    simp only [List.foldl_cons, List.mem_cons]
+    obtain ⟨i1, i2⟩ := ih (flushVal del s a)
+    obtain ⟨f1, f2⟩ := flushVal_get del s a a'
+    rw [i1, i2, f1, f2]
+    by_cases ha : a = a'
+    · subst ha
+      by_cases hm : a ∈ t
+      · cases hg : aget s.vals a <;> simp [hm, vflag_idem, valLeaf_vflag]
+      · simp [hm]
+    · have ha' : ¬ a' = a := fun h => ha h.symm
+      simp [ha, ha']
+
+theorem iroot_vals (P : Prim) (del : Bool) (s : St) :
+    (iroot P del s).t.val.vals = (s.valD.foldl (flushVal del) (flushAccts P (finalise del s))).t.val.vals := by
+  unfold iroot
+  rw [(flushRelats_frame _).2.2]
+  simp [flushRecs, saveSingles, flushVals, flushAccts, finalise]
+
+/-- **the validator records in the validator trie after a flush, key by key** -/
+theorem iroot_vals_get (P : Prim) (del : Bool) (s : St) (a : Bytes) :
+    cget (iroot P del s).t.val.vals a =
+      if a ∈ s.valD then ((aget s.vals a).map (valLeaf del)).getD (cget s.t.val.vals a) else cget s.t.val.vals a := by
+  rw [iroot_vals, (foldl_flushVal_get del _ _ a).2]
+  simp [flushAccts, finalise]
 
 
 end YouVerif.C10
